@@ -183,8 +183,8 @@ func judge(w *sup.Worker, c Case) (string, string) {
 }
 
 // hasShorthandSelfRef recognises the recorded known finding (see C04) in a description: an object whose only
-// property is a reference that leads back to the object - directly, or through other objects whose only property is
-// a reference (the shorthand passes a lone value down such a chain without ever consuming it).
+// property is a reference (or an object written in place) that leads back to the object - directly, or through other
+// one-property objects (the shorthand passes a lone value down such a chain without ever consuming it).
 func hasShorthandSelfRef(v val.V) bool {
 	next := map[string]string{} // one-property object ID -> ID its only property refers to
 	var walk func(v val.V)
@@ -205,8 +205,8 @@ func hasShorthandSelfRef(v val.V) bool {
 					if e.K.S == "type" {
 						isRef, target := false, ""
 						for _, f := range e.V.M {
-							if f.K.S == "type_id" && f.V.S == "ref" {
-								isRef = true
+							if f.K.S == "type_id" && (f.V.S == "ref" || f.V.S == "object") {
+								isRef = true // a reference, or an object written in place (it carries its own id)
 							}
 							if f.K.S == "id" {
 								target = f.V.S
